@@ -233,6 +233,38 @@ def fixed_battery(ck, stats):
             stats["passthrough_unchanged"] += 1
 
 
+def joined_star_battery(ck, stats):
+    """`SELECT *` of a model next to fields of a joined model — same-named and differently named dimensions and metrics,
+    before the explicit list and as the explicit list — vs the structured query"""
+    from sidemantic import Dimension, Metric, Model, Relationship, SemanticLayer
+    layer = SemanticLayer(auto_register=False)
+    layer.add_model(Model(name="customers", table="customers_t", primary_key="id", dimensions=[Dimension(name="status", type="categorical"), Dimension(name="tier", type="categorical")],
+                          metrics=[Metric(name="n", agg="count"), Metric(name="credit", agg="sum", sql="credit")]))
+    layer.add_model(Model(name="orders", table="orders_t", primary_key="id", dimensions=[Dimension(name="status", type="categorical"), Dimension(name="region", type="categorical")],
+                          metrics=[Metric(name="revenue", agg="sum", sql="amount"), Metric(name="n", agg="count")],
+                          relationships=[Relationship(name="customers", type="many_to_one", foreign_key="customer_id")]))
+    layer.conn.execute("SET threads=1")
+    layer.conn.execute("create table orders_t(id int, customer_id int, status varchar, region varchar, amount int)")
+    layer.conn.execute("insert into orders_t values (1,1,'a','eu',5),(2,1,'a','us',7),(3,2,'b','eu',100),(4,NULL,NULL,'eu',60),(5,3,'c',NULL,1)")
+    layer.conn.execute("create table customers_t(id int, status varchar, tier varchar, credit int)")
+    layer.conn.execute("insert into customers_t values (1,'x','gold',10),(2,'y','gold',20),(3,NULL,'std',5)")
+    for f, isdim in (("status", True), ("tier", True), ("n", False), ("credit", False)):
+        want = layer.query(metrics=["orders.revenue", "orders.n"] + ([] if isdim else [f"customers.{f}"]),
+                           dimensions=["orders.status", "orders.region"] + ([f"customers.{f}"] if isdim else []))
+        wc, wr = [d[0] for d in want.description], c01.canon_rows(want.fetchall())
+        for sql in (f"SELECT *, customers.{f} FROM orders", f"SELECT orders.status, orders.region, orders.revenue, orders.n, customers.{f} FROM orders"):
+            stats["joined_star"] += 1
+            try:
+                got = layer.sql(sql)
+                gc, gr = [d[0] for d in got.description], c01.canon_rows(got.fetchall())
+            except Exception as e:  # noqa: BLE001
+                ck.fail_input("SQL over a model and a field of a joined model is rejected although the structured query is answered", {"sql": sql, "error": repr(e)[:300]})
+                continue
+            if sorted(gc) != sorted(wc) or not c01.bag_equal([tuple(r[gc.index(c)] for c in wc) for r in gr] if sorted(gc) == sorted(wc) else gr, wr):
+                ck.fail_input("SQL over a model and a field of a joined model is answered differently from the structured query",
+                              {"sql": sql, "columns": gc, "rows": str(gr)[:400], "structured_columns": wc, "structured_rows": str(wr)[:400]})
+
+
 def run(ck: Check):
     ck.prove("SideVerif.Properties.C05")
     stats = Counter()
@@ -243,9 +275,10 @@ def run(ck: Check):
     if disagree or ck.broken:
         sweep(ck, ck.rng, 200, stats)
     fixed_battery(ck, stats)
+    joined_star_battery(ck, stats)
     ck.coverage.update({
         "evaluations": stats["renderings"], "distinct_nontrivial": stats["end_to_end_equal"],
-        "rule": "single-model structured queries of C01's generator (dimensions with granularities, metrics, aliases, filters of every form incl. metric-value filters and OR groups, ORDER BY, LIMIT/OFFSET) x 6 renderings (qualified / unqualified names, FROM model / FROM metrics, wrapped in a CTE or a sub-select) + a fixed battery of unsupported constructs, equivalent spellings (HAVING, GROUP BY, DISTINCT, SELECT *) and non-semantic SQL",
+        "rule": "single-model structured queries of C01's generator (dimensions with granularities, metrics, aliases, filters of every form incl. metric-value filters and OR groups, ORDER BY, LIMIT/OFFSET) x 6 renderings (qualified / unqualified names, FROM model / FROM metrics, wrapped in a CTE or a sub-select) + a fixed battery of unsupported constructs, equivalent spellings (HAVING, GROUP BY, DISTINCT, SELECT *), SELECT * next to same-named / other fields of a joined model vs the structured query, and non-semantic SQL",
         "stats": dict(stats), "traces_validated_against_impl": stats["extraction_equal"],
     })
     ck.assumptions += ["sqlglot's parser is trusted: the AST given to the model is the structured form the SQL text was rendered from",
